@@ -690,6 +690,93 @@ theorem setHrefR_eq (idna : Idna) (L : Nat) (u : Url) (v : Bytes) (hid : ∀ d, 
       simp [h, this]
     · simp [h]
 
+/-! ### `get_origin` -/
+theorem getHostR_recOf (u : Url) (hp : ∀ p, u.port = some p → p < 65536) : getHostR (UR.recOf u) = u.getHost := by
+  unfold getHostR Url.getHost
+  cases hh : u.host with
+  | none => simp [UR.recOf, hh]
+  | some h =>
+    cases hpo : u.port with
+    | none => simp [UR.recOf, hh, hpo]
+    | some p => simp [UR.recOf, hh, hpo, UR.dec16_eq p (hp p hpo)]
+
+theorem type_http (s : Bytes) : (getSchemeType s == 0 || getSchemeType s == 2) = (s == bHttp || s == bHttps) := by
+  rw [getSchemeType_eq]
+  unfold schemeTypeSpec
+  by_cases h0 : s = bHttp
+  · subst h0; decide
+  by_cases h2 : s = bHttps
+  · subst h2; decide
+  have e0 : (s == bHttp) = false := by simpa using h0
+  have e2 : (s == bHttps) = false := by simpa using h2
+  simp only [e0, e2, Bool.or_self, h0, h2, ↓reduceIte]
+  repeat' split
+  all_goals rfl
+
+theorem parse_port_bound (idna : Idna) (input : Bytes) (base : Option Url) (u : Url) (hb : ∀ b, base = some b → RecInv b = true)
+    (h : parse idna input base = some u) : ∀ p, u.port = some p → p < 65536 := by
+  have hinv := parse_inv idna input base u hb h
+  intro p hpp
+  simp only [RecInv, Bool.and_eq_true] at hinv
+  have := hinv.1.2
+  rw [hpp] at this
+  simp only [portOkB, Bool.and_eq_true, decide_eq_true_eq] at this
+  omega
+
+/-- **`url::get_origin` is the Standard's origin serialisation** (the inner parse of a blob URL under the side conditions of
+    the parser theorem, stated for the path text) -/
+theorem getOriginR_eq (idna : Idna) (u : Url) (hport : ∀ p, u.port = some p → p < 65536) (hid : ∀ d, HP.IdnaAt idna d)
+    (hclean : u.scheme = bBlob → HS.bracketClean (schemeSpecial u.pathSerialized) false (hostStart u.pathSerialized) = true) :
+    getOriginR idna (UR.recOf u) = u.origin idna := by
+  unfold getOriginR Url.origin
+  have hf := Proto.type_facts u.scheme
+  have hsp : (UR.recOf u).special = isSpecialScheme u.scheme := rfl
+  have hsc : (UR.recOf u).scheme = u.scheme := rfl
+  have hpa : (UR.recOf u).path = u.pathSerialized := rfl
+  rw [hsp, hsc, hpa]
+  by_cases hblob : u.scheme = bBlob
+  · have hb' : (u.scheme == bBlob) = true := by simpa using hblob
+    have hns : isSpecialScheme u.scheme = false := by rw [hblob]; decide
+    simp only [hns, Bool.false_eq_true, ↓reduceIte, hb', Bool.true_and]
+    by_cases hemp : u.pathSerialized.isEmpty = true
+    · -- an empty path parses to nothing
+      have hpe : u.pathSerialized = [] := by simpa using hemp
+      simp only [hemp, Bool.not_true, Bool.false_eq_true, ↓reduceIte, hpe]
+      have : parse idna [] none = none := by
+        unfold parse preprocess dropWhileEnd
+        simp [cutAt, parseCore, takeScheme]
+      rw [this]
+      rfl
+    · simp only [hemp, Bool.not_false, ↓reduceIte]
+      rw [PS.parseNoBase_spec idna u.pathSerialized hid (hclean hblob)]
+      cases hp : parse idna u.pathSerialized none with
+      | none => rfl
+      | some p =>
+        simp only [PS.outOf]
+        have hpp := parse_port_bound idna u.pathSerialized none p (by intro b hb; cases hb) hp
+        have hsc' : (UR.recOf p).scheme = p.scheme := rfl
+        rw [hsc', type_http, getHostR_recOf p hpp]
+        simp [tupleOrigin, bNullB, bNull, List.append_assoc]
+  · have hb' : (u.scheme == bBlob) = false := by simpa using hblob
+    simp only [hb', Bool.false_and, Bool.false_eq_true, ↓reduceIte]
+    rw [hf.2.1]
+    by_cases hs : isSpecialScheme u.scheme = true
+    · simp only [hs, ↓reduceIte]
+      by_cases hfile : (u.scheme == bFile) = true
+      · simp [hfile, bNullB, bNull]
+      · simp only [hfile, Bool.false_eq_true, ↓reduceIte]
+        rw [getHostR_recOf u hport]
+        simp [tupleOrigin, List.append_assoc]
+    · have hs' : isSpecialScheme u.scheme = false := by simpa using hs
+      simp only [hs', Bool.false_eq_true, ↓reduceIte]
+      have hfile : (u.scheme == bFile) = false := by
+        cases h : (u.scheme == bFile) with
+        | false => rfl
+        | true =>
+          have : u.scheme = bFile := by simpa using h
+          rw [this] at hs'; exact absurd hs' (by decide)
+      simp [hfile, bNullB, bNull]
+
 /-! ### a plain sufficient condition for the bracket side condition -/
 theorem relAuthSlash_sub (sp : Bool) (r : Bytes) (sp' : Bool) (text : Bytes) (h : relAuthSlash sp r = some (sp', text)) :
     ∀ x ∈ text, x ∈ r := by
